@@ -1,6 +1,7 @@
 import Driver.Util
 import Mtv.Envelope.Exec
 import Driver.C03
+import Mtv.Envelope.Head
 namespace Driver.C04
 open Mtv Mtv.Envelope Mtv.Envelope.Exec Driver
 
@@ -30,6 +31,72 @@ def clientSteps (enc : Bool) : List String → Option (List String)
     | some key, some pkt, some r => some (showClient (clientRead enc prims key pkt) :: r)
     | _, _, _ => none
   | _ => none
+
+/-! ### packets described, not spelled out (`c04.big`, `c04.cut`; harness/cmd/vh/c04big.go) -/
+
+/-- `g:<n>:<seed>` / `r:<total>:<seed>:<decl>:<span>` -/
+inductive BigDesc where
+  | garbage (n seed : Nat)
+  | resealed (total seed : Nat) (decl : Int) (span : Nat)
+
+def parseInt? (s : String) : Option Int :=
+  match s.toList with
+  | '-' :: r => (String.ofList r).toNat?.map fun n => -(n : Int)
+  | _ => s.toNat?.map fun n => (n : Int)
+
+def parseDesc? (s : String) : Option BigDesc :=
+  match s.splitOn ":" with
+  | ["g", n, sd] =>
+    match n.toNat?, sd.toNat? with
+    | some n, some sd => if 8 ≤ n ∧ n ≤ 2 ^ 28 then some (.garbage n sd) else none
+    | _, _ => none
+  | ["r", t, sd, decl, span] =>
+    match t.toNat?, sd.toNat?, parseInt? decl, span.toNat? with
+    | some t, some sd, some decl, some span =>
+      if 32 ≤ t ∧ t % 16 = 0 ∧ t ≤ 2 ^ 28 ∧ span ≤ t ∧ -(2 ^ 31 : Int) ≤ decl ∧ decl < 2 ^ 31 then some (.resealed t sd decl span) else none
+    | _, _, _, _ => none
+  | _ => none
+
+/-- the plaintext of an `r` description: LCG bytes, server parity forced on the msg_id, the length field set -/
+def bigPlain (total seed : Nat) (decl : Int) : Bytes :=
+  let p := lcgBytes total (UInt64.ofNat seed)
+  let b16 := (p.getD 16 0)
+  p.take 16 ++ [(b16 &&& 0xFC) ||| 1] ++ (p.drop 17).take 11 ++ leBytes (ofSigned 32 decl) 4 ++ p.drop 32
+
+/-- the packet of a description under `key` (the `r` form is sealed by the SPECIFICATION's server, like in Go) -/
+def bigPacket (key : Bytes) : BigDesc → Bytes
+  | .garbage n seed => authKeyId prims key ++ lcgBytes (n - 8) (UInt64.ofNat seed)
+  | .resealed total seed decl span =>
+    let plain := bigPlain total seed decl
+    let mk := Spec.substr (prims.H (plain.take span)) 4 16
+    let kv := Spec.keyIv prims 8 key mk
+    authKeyId prims key ++ mk ++ prims.igeE kv.1 kv.2 plain
+
+/-- above this size garbage is answered from its first 56 bytes where they decide; at and
+below it BOTH ways are computed and must agree -/
+def headOnlyAbove : Nat := 2 ^ 20
+
+/-- `DeserializeEncrypted` on a described packet -/
+def bigOpen (key : Bytes) (d : BigDesc) : Outcome Msg :=
+  match d with
+  | .garbage n seed =>
+    let head := authKeyId prims key ++ lcgBytes 48 (UInt64.ofNat seed)
+    match openClientHead prims key head n with
+    | some r =>
+      if n ≤ headOnlyAbove ∧ openClient prims key (bigPacket key d) ≠ r then .err "HEAD-RULE-DISAGREES-WITH-MODEL" else r
+    | none => openClient prims key (bigPacket key d)
+  | _ => openClient prims key (bigPacket key d)
+
+/-- `ReadMsg` on a described packet: `route` with the deserialiser's answer taken from `bigOpen` (a described packet
+is longer than 4 bytes and starts with a key id, which is non-zero for the keys the generator uses; should it be
+zero the whole packet goes through `route`) -/
+def bigRoute (key : Bytes) (d : BigDesc) : Routed :=
+  if Unenc.isEncrypted (authKeyId prims key) then
+    match bigOpen key d with
+    | .panic s => .panic s
+    | .err e => .err e
+    | .ok m => if m.mid % 4 ≠ 1 ∧ m.mid % 4 ≠ 3 then .err "parity2" else .enc m
+  else route prims key (bigPacket key d)
 
 /-- operations of property C04 (see harness/cmd/vh/c04.go). The last token of each operation is the
 generator's expectation for the Go-side oracle; the model does not look at it. -/
@@ -64,6 +131,20 @@ def handle : List String → String
     match parseTok? d with
     | some d => C03.showUnenc (Unenc.deserialize d)
     | none => "bad-op"
+  -- packets of any size, described (c04big.go)
+  | ["c04.big", via, key, desc, _expect] =>
+    match parseTok? key, parseDesc? desc with
+    | some key, some d =>
+      if via = "open" then showOutcome showMsg (bigOpen key d)
+      else if via = "route" then showRouted (bigRoute key d)
+      else "bad-op"
+    | _, _ => "bad-op"
+  -- a frame cut short by the end of the connection: the framing layer delivers nothing, `ReadMsg` returns its
+  -- connection error (one class; the deserialisers are not reached)
+  | ["c04.cut", key, declared, sent, seed] =>
+    match parseTok? key, declared.toNat?, sent.toNat?, seed.toNat? with
+    | some _, some d, some s, some _ => if 8 ≤ d ∧ d ≤ 2 ^ 28 ∧ s < d then "err:transport" else "bad-op"
+    | _, _, _, _ => "bad-op"
   | _ => "bad-op"
 
 end Driver.C04
